@@ -29,14 +29,15 @@ RULE = ("fault classes per configuration: F0 missing, F1 empty, F2 truncation (e
         "elsewhere in quick, every offset in thorough), F3 single-byte corruption (xor 0xFF and a random byte, same offset sets), "
         "F4a OSError(ENOSPC) raised at the k-th write() on the zip stream for every k (persisting and transient), then gc, "
         "F4b the saver process killed by strace at its k-th write(2) on the cache file for every k, F5 the cache file of a "
-        "configuration differing in exactly one field placed under the requested name; plus the intact-cache hit. After every "
+        "configuration differing in exactly one field placed under the requested name; F6 sequences of 2-3 faults (truncate / flip a byte / delete / "
+        "empty / append garbage), each applied to the file the previous recovery left behind; plus the intact-cache hit. After every "
         "fault MazeDataset.from_config(cfg, local_base_path=tmp, do_download=False) must return the mazes of a fresh generation "
         "(or, for F5, raise), and the file left behind must load and hold those mazes. "
         "non-trivial & distinct = distinct (configuration, fault class, fault position) whose damaged file differs from the intact one")
 ASSUMPTIONS = ["crash points are the write() calls the zip writer issues on this platform; torn writes below the syscall boundary are approximated by byte truncation",
                "zlib CRC / zipfile / zanj are trusted to detect what they detect", "serial generation is deterministic (C04)"]
 NSHARDS = {"quick": 16, "thorough": 16}
-THRESHOLDS = {"quick": {"c11:F0": 3, "c11:F1": 3, "c11:F2": 600, "c11:F3": 600, "c11:F4a": 30, "c11:F5": 20, "c11:intact-hit": 3,
+THRESHOLDS = {"quick": {"c11:F0": 3, "c11:F1": 3, "c11:F2": 600, "c11:F3": 600, "c11:F4a": 30, "c11:F5": 20, "c11:F6": 100, "c11:intact-hit": 3,
                         "c11:reader-raised-and-regenerated": 300, "c11:file-left-behind-checked": 1000, "c11:F5:raised": 15,
                         "c11:F5:n_mazes-foreign": 3}}
 THRESHOLDS["thorough"] = {**THRESHOLDS["quick"], "c11:F2": 20000, "c11:F3": 20000}
@@ -203,6 +204,33 @@ def run(ctx):
                 nv = (nv + 1) % 256
             b2[o] = nv
             judge("F3", o, bytes(b2), note=f"byte -> {nv}")
+        # ---- F6: fault sequences - a second (and third) fault hits the file the previous recovery left behind -------------
+        n_seq = (24 if ctx.quick else 400)
+        for q in range(n_seq):
+            if not ctx.mine_key(spec["key"], "F6", q):
+                continue
+            rng = ctx.sub_rng("seq", spec["key"], q)
+            steps = []
+            for _step in range(int(rng.integers(2, 4))):
+                cur = open(path, "rb").read() if os.path.exists(path) else good
+                kind = ["trunc", "flip", "missing", "empty", "append-garbage"][int(rng.integers(5))]
+                if kind == "trunc":
+                    o = int(rng.integers(0, max(1, len(cur)))); dmg = cur[:o]
+                elif kind == "flip":
+                    o = int(rng.integers(0, max(1, len(cur)))); b = bytearray(cur)
+                    if b:
+                        b[o] ^= int(rng.integers(1, 256))
+                    dmg = bytes(b)
+                elif kind == "missing":
+                    o, dmg = None, None
+                elif kind == "empty":
+                    o, dmg = 0, b""
+                else:
+                    o = len(cur); dmg = cur + bytes(rng.integers(0, 256, size=int(rng.integers(1, 64)), dtype=np.uint8))
+                steps.append((kind, o))
+                judge("F6", (q, tuple(steps)), dmg, note=f"fault sequence {steps}")
+            with open(path, "wb") as f:
+                f.write(good)
         # ---- F4a: in-process write faults -------------------------------------------
         counter = dict(writes=0, injected=0)
         real_io = zipfile.io
